@@ -15,9 +15,11 @@ import (
 	"os"
 	"os/exec"
 	"path/filepath"
+	"runtime/debug"
 	"sort"
 	"strings"
 	"sync"
+	"sync/atomic"
 	"syscall"
 	"testing"
 	"time"
@@ -228,6 +230,8 @@ func runWorker(p *propDef) int {
 		return 2
 	}
 	res := newWorkerResult()
+	// a runaway recursion in the code under test should die in about a second, not after growing a 1 GB stack
+	debug.SetMaxStack(128 << 20)
 	var pf *os.File
 	if *fProgress != "" {
 		pf, _ = os.OpenFile(*fProgress, os.O_CREATE|os.O_WRONLY, 0644)
@@ -380,8 +384,20 @@ func runUnit(p *propDef, s *stream, lo, hi int) unitOutcome {
 }
 
 // runRange runs [lo,hi) of a stream in worker processes, isolating a crashing / non-returning case
+// after this many reproduced crashes the remaining cases are not run: the verdict is settled, and a tree on
+// which most cases die must not keep the check busy for hours
+const maxCrashViolations = 3
+
+var crashViolations int32
+
 func runRange(p *propDef, s *stream, lo, hi int, agg *aggregate) {
 	for lo < hi {
+		if atomic.LoadInt32(&crashViolations) >= maxCrashViolations {
+			agg.mu.Lock()
+			agg.counters["cases_not_run_after_crashes"] += int64(hi - lo)
+			agg.mu.Unlock()
+			return
+		}
 		o := runUnit(p, s, lo, hi)
 		if o.res != nil {
 			agg.merge(s, o.res, hi-lo)
@@ -410,6 +426,7 @@ func runRange(p *propDef, s *stream, lo, hi int, agg *aggregate) {
 			if o3.timedOut {
 				kind = "no-return"
 			}
+			atomic.AddInt32(&crashViolations, 1)
 			d, _ := json.Marshal(map[string]interface{}{"kind": kind, "output": o3.tail})
 			agg.addViolation(violation{Stream: s.name, Idx: k, Sig: kind,
 				Msg: fmt.Sprintf("executing the case kills or blocks the process (%s), reproduced in a fresh worker", kind), Detail: d})
